@@ -2,3 +2,7 @@ import DafRel.Props.C08
 #print axioms DafRel.Props.C08.accepted_history_executes
 #print axioms DafRel.Props.C08.accepted_history_iterates
 #print axioms DafRel.Props.C08.finish_apply_raises_only_engine_error
+#print axioms DafRel.Props.C08.sql_compile_never_fails
+#print axioms DafRel.Props.C08.sql_payload_never_fails
+#print axioms DafRel.Props.C08.conformed_tree_compiles
+#print axioms DafRel.Props.C08.accepted_sql_history_compiles
